@@ -19,3 +19,650 @@ Proof.
     replace (k' =? k) with false by lia. reflexivity.
 Qed.
 End Dict.
+
+(* ---------------------------------------------------------------------------------------------
+   A. reordering by the stable argsort of T  =  stable sort of the pairs (T, X), projected
+   --------------------------------------------------------------------------------------------- *)
+Section Reorder.
+Context {X Y : Type}.
+Variable g : X -> Y.
+Definition onsnd (kv : Z * X) : Z * Y := (fst kv, g (snd kv)).
+
+Lemma insert_map x l : insert (onsnd x) (map onsnd l) = map onsnd (insert x l).
+Proof.
+  induction l as [|y r IH]; cbn [insert map]; [reflexivity|].
+  change (fst (onsnd x)) with (fst x). change (fst (onsnd y)) with (fst y).
+  destruct (fst x <=? fst y); cbn [map]; [reflexivity|]. now rewrite IH.
+Qed.
+
+Lemma isort_map l : isort (map onsnd l) = map onsnd (isort l).
+Proof.
+  induction l as [|x l IH]; cbn [isort fold_right map]; [reflexivity|].
+  fold (isort (map onsnd l)). fold (isort l). rewrite IH. apply insert_map.
+Qed.
+
+Lemma combine_map_r (T : list Z) (l : list X) : combine T (map g l) = map onsnd (combine T l).
+Proof.
+  revert l; induction T as [|t T IH]; intros [|x l]; cbn [combine map]; try reflexivity.
+  now rewrite IH.
+Qed.
+End Reorder.
+
+Lemma take_some {X} (order : list nat) (l Y : list X) :
+  map (nth_error l) order = map Some Y -> take l order = Some Y.
+Proof.
+  revert Y; induction order as [|i r IH]; intros [|y Y] H; cbn [map] in H; try discriminate; cbn [take].
+  - reflexivity.
+  - injection H as H1 H2. rewrite H1, (IH Y H2). reflexivity.
+Qed.
+
+Lemma nth_error_seq {X} (l : list X) : map (nth_error l) (seq 0 (length l)) = map Some l.
+Proof.
+  induction l as [|x l IH]; [reflexivity|].
+  cbn [length seq map nth_error]. f_equal. rewrite <- seq_shift, map_map. cbn [nth_error]. exact IH.
+Qed.
+
+Lemma take_argsort {X} (T : list Z) (l : list X) : length l = length T ->
+  take l (stable_argsort T) = Some (map snd (isort (combine T l))).
+Proof.
+  intros HL. apply take_some. unfold stable_argsort.
+  transitivity (map snd (map (onsnd (nth_error l)) (isort (combine T (seq 0 (length T)))))).
+  { rewrite !map_map. reflexivity. }
+  rewrite <- isort_map, <- combine_map_r, <- HL, nth_error_seq.
+  rewrite combine_map_r, isort_map, !map_map. reflexivity.
+Qed.
+
+Lemma load_spike_arrays_spec {X} (T : list Z) (arrs : list (list X)) :
+  length (concat arrs) = length T ->
+  load_spike_arrays arrs (stable_argsort T) = Some (map snd (isort (combine T (concat arrs)))).
+Proof.
+  intros HL. unfold load_spike_arrays.
+  assert (Hlen : length (stable_argsort T) = length T).
+  { unfold stable_argsort. rewrite map_length. 
+    rewrite (Permutation_length (isort_perm _)), combine_length, seq_length. apply Nat.min_id. }
+  rewrite Hlen, HL, Nat.eqb_refl. now apply take_argsort.
+Qed.
+
+Lemma SSorted_app {X} (R : X -> X -> Prop) l1 l2 :
+  StronglySorted R l1 -> StronglySorted R l2 -> (forall a b, In a l1 -> In b l2 -> R a b) ->
+  StronglySorted R (l1 ++ l2).
+Proof.
+  induction l1 as [|x l1 IH]; intros H1 H2 H12; cbn [app]; [exact H2|].
+  apply StronglySorted_inv in H1 as [H1 Hx]. constructor.
+  - apply IH; [exact H1|exact H2|]. intros a b Ha Hb. apply H12; [now right|exact Hb].
+  - apply Forall_app. split; [exact Hx|]. rewrite Forall_forall. intros b Hb. apply H12; [now left|exact Hb].
+Qed.
+
+Lemma combine_map_self {X} (f : X -> Z) (l : list X) : combine (map f l) l = map (fun x => (f x, x)) l.
+Proof. induction l as [|x l IH]; cbn [map combine]; [reflexivity|]. now rewrite IH. Qed.
+
+(* ---------------------------------------------------------------------------------------------
+   B. the tagged input spikes
+   --------------------------------------------------------------------------------------------- *)
+Section Main.
+Context {A V F : Type}.
+Notation probe := (probe A V F).
+Notation merged := (merged A V F).
+Notation tagged := (tagged A).
+
+Lemma tag_spikes_proj k i (ts : list Z) (am : list A) (tm cl : list Z) :
+  length am = length ts -> length tm = length ts -> length cl = length ts ->
+  map (@t_time A) (tag_spikes k i ts am tm cl) = ts /\ map (@t_amp A) (tag_spikes k i ts am tm cl) = am /\
+  map (@t_tmpl A) (tag_spikes k i ts am tm cl) = tm /\ map (@t_clu A) (tag_spikes k i ts am tm cl) = cl.
+Proof.
+  revert i am tm cl; induction ts as [|t ts IH]; intros i [|a am] [|m tm] [|c cl] H1 H2 H3; try discriminate.
+  - repeat split; reflexivity.
+  - cbn [length] in *. destruct (IH (S i) am tm cl) as (E1 & E2 & E3 & E4); try lia.
+    cbn [tag_spikes map t_time t_amp t_tmpl t_clu]. rewrite E1, E2, E3, E4. repeat split; reflexivity.
+Qed.
+
+Lemma tag_spikes_tags k i (ts : list Z) (am : list A) (tm cl : list Z) x :
+  In x (tag_spikes k i ts am tm cl) -> t_probe x = k /\ (i <= t_idx x)%nat.
+Proof.
+  revert i am tm cl; induction ts as [|t ts IH]; intros i [|a am] [|m tm] [|c cl]; cbn [tag_spikes]; try contradiction.
+  intros [<-|H]; [cbn; split; [reflexivity|lia]|]. destruct (IH _ _ _ _ H) as [E L]. split; [exact E|lia].
+Qed.
+
+Lemma tag_spikes_sorted k i (ts : list Z) (am : list A) (tm cl : list Z) :
+  StronglySorted (@taglt A) (tag_spikes k i ts am tm cl).
+Proof.
+  revert i am tm cl; induction ts as [|t ts IH]; intros i [|a am] [|m tm] [|c cl]; cbn [tag_spikes]; try constructor.
+  - apply IH.
+  - rewrite Forall_forall. intros x Hx. destruct (tag_spikes_tags _ _ _ _ _ _ _ Hx) as [E L].
+    right. cbn [t_probe t_idx]. split; [now symmetry|lia].
+Qed.
+
+Lemma tagged_from_probe k (ps : list probe) x : In x (tagged_from k ps) -> (k <= t_probe x < k + length ps)%nat.
+Proof.
+  revert k; induction ps as [|p r IH]; intros k; cbn [tagged_from]; [contradiction|].
+  rewrite in_app_iff. intros [H|H].
+  - destruct (tag_spikes_tags _ _ _ _ _ _ _ H) as [E _]. cbn [length]. lia.
+  - specialize (IH _ H). cbn [length]. lia.
+Qed.
+
+Lemma tagged_from_sorted k (ps : list probe) : StronglySorted (@taglt A) (tagged_from k ps).
+Proof.
+  revert k; induction ps as [|p r IH]; intros k; cbn [tagged_from]; [constructor|].
+  apply SSorted_app; [apply tag_spikes_sorted|apply IH|].
+  intros a b Ha Hb. destruct (tag_spikes_tags _ _ _ _ _ _ _ Ha) as [E _]. pose proof (tagged_from_probe _ _ _ Hb).
+  left. lia.
+Qed.
+
+Definition wf_len (p : probe) : Prop :=
+  length (p_amps p) = length (p_times p) /\ length (p_tmpl p) = length (p_times p) /\ length (p_clu p) = length (p_times p).
+
+Lemma tagged_from_proj k (ps : list probe) : Forall wf_len ps ->
+  map (@t_time A) (tagged_from k ps) = concat (map (@p_times A V F) ps) /\
+  map (@t_amp A) (tagged_from k ps) = concat (map (@p_amps A V F) ps) /\
+  map (@t_tmpl A) (tagged_from k ps) = concat (map (@p_tmpl A V F) ps) /\
+  map (@t_clu A) (tagged_from k ps) = concat (map (@p_clu A V F) ps).
+Proof.
+  revert k; induction ps as [|p r IH]; intros k H; cbn [tagged_from map concat]; [repeat split; reflexivity|].
+  inversion H as [|? ? (H1 & H2 & H3) Hr]; subst.
+  destruct (IH (S k) Hr) as (E1 & E2 & E3 & E4).
+  destruct (tag_spikes_proj k 0 _ _ _ _ H1 H2 H3) as (G1 & G2 & G3 & G4).
+  unfold tag_probe. rewrite !map_app, E1, E2, E3, E4, G1, G2, G3, G4. repeat split; reflexivity.
+Qed.
+
+(* ---------------------------------------------------------------------------------------------
+   C. the stable sort of the tagged spikes by time is strictly increasing in (time, probe, index)
+   --------------------------------------------------------------------------------------------- *)
+Definition keyed (R : list tagged) : list (Z * tagged) := map (fun r => (t_time r, r)) R.
+Definition sorted_tagged (R : list tagged) : list tagged := map snd (isort (keyed R)).
+
+Lemma lt3_time_le (x : tagged) l y : StronglySorted (@lt3 A) (x :: l) -> In y l -> t_time x <= t_time y.
+Proof.
+  intros H Hy. apply StronglySorted_inv in H as [_ H]. rewrite Forall_forall in H.
+  destruct (H y Hy) as [L|[E _]]; lia.
+Qed.
+
+Lemma insert_lt3 (kx : Z * tagged) (S : list (Z * tagged)) :
+  (forall y, In y S -> fst y = t_time (snd y)) -> fst kx = t_time (snd kx) ->
+  StronglySorted (@lt3 A) (map snd S) -> (forall y, In y S -> taglt (snd kx) (snd y)) ->
+  StronglySorted (@lt3 A) (map snd (insert kx S)).
+Proof.
+  induction S as [|y r IH]; intros Hk Hx Hs Ht; cbn [insert map].
+  - constructor; constructor.
+  - destruct (fst kx <=? fst y) eqn:E.
+    + cbn [map]. constructor; [exact Hs|]. rewrite Forall_forall. intros z Hz.
+      change (snd y :: map snd r) with (map snd (y :: r)) in Hz. apply in_map_iff in Hz as (z' & <- & Hz').
+      assert (T : t_time (snd kx) <= t_time (snd z')).
+      { destruct Hz' as [<-|Hz']; [rewrite <- Hx, <- (Hk y (or_introl eq_refl)); lia|].
+        pose proof (lt3_time_le (snd y) (map snd r) (snd z') Hs (in_map snd _ _ Hz')).
+        rewrite <- Hx. rewrite (Hk y (or_introl eq_refl)) in E. lia. }
+      destruct (Z.eq_dec (t_time (snd kx)) (t_time (snd z'))) as [Eq|Ne].
+      * right. split; [exact Eq|]. apply Ht. exact Hz'.
+      * left. lia.
+    + cbn [map] in *. apply StronglySorted_inv in Hs as [Hs Hy]. constructor.
+      * apply IH; [intros z Hz; apply Hk; now right|exact Hx|exact Hs|intros z Hz; apply Ht; now right].
+      * rewrite Forall_forall in *. intros z Hz. apply in_map_iff in Hz as (z' & <- & Hz').
+        apply (Permutation_in _ (insert_perm kx r)) in Hz'. destruct Hz' as [<-|Hz'].
+        -- left. rewrite <- Hx, <- (Hk y (or_introl eq_refl)). lia.
+        -- apply Hy. now apply in_map.
+Qed.
+
+Lemma keyed_fst (R : list tagged) y : In y (isort (keyed R)) -> fst y = t_time (snd y) /\ In (snd y) R.
+Proof.
+  intros H. apply (Permutation_in _ (isort_perm _)) in H. unfold keyed in H.
+  apply in_map_iff in H as (r & <- & Hr). split; [reflexivity|exact Hr].
+Qed.
+
+Lemma sorted_tagged_lt3 (R : list tagged) : StronglySorted (@taglt A) R -> StronglySorted (@lt3 A) (sorted_tagged R).
+Proof.
+  induction R as [|x R IH]; intros H; [constructor|].
+  apply StronglySorted_inv in H as [HR Hx]. specialize (IH HR). rewrite Forall_forall in Hx.
+  unfold sorted_tagged. cbn [keyed map isort fold_right]. fold (keyed R). fold (isort (keyed R)).
+  apply insert_lt3.
+  - intros y Hy. apply (keyed_fst R y Hy).
+  - reflexivity.
+  - exact IH.
+  - intros y Hy. cbn [snd]. apply Hx. apply (keyed_fst R y Hy).
+Qed.
+
+Lemma sorted_tagged_perm (R : list tagged) : Permutation (sorted_tagged R) R.
+Proof.
+  unfold sorted_tagged. rewrite (isort_perm (keyed R)). unfold keyed. rewrite map_map. cbn [snd].
+  rewrite map_id. reflexivity.
+Qed.
+End Main.
+
+(* ---------------------------------------------------------------------------------------------
+   D. maxima and running offsets
+   --------------------------------------------------------------------------------------------- *)
+Lemma zmaxl_ge l x : In x l -> x <= zmaxl l.
+Proof. induction l as [|y l IH]; [contradiction|]. cbn [zmaxl fold_right]. fold (zmaxl l). intros [->|H]; [lia|]. specialize (IH H). lia. Qed.
+Lemma zmaxl_nonneg l : 0 <= zmaxl l.
+Proof. induction l as [|y l IH]; cbn [zmaxl fold_right]; [lia|]. fold (zmaxl l). lia. Qed.
+Lemma zmaxl_in l : l <> [] -> (forall x, In x l -> 0 <= x) -> In (zmaxl l) l.
+Proof.
+  induction l as [|y l IH]; intros Hn Hp; [contradiction|]. cbn [zmaxl fold_right]. fold (zmaxl l).
+  destruct l as [|z l'].
+  - left. cbn. specialize (Hp y (or_introl eq_refl)). lia.
+  - assert (H : In (zmaxl (z :: l')) (z :: l')) by (apply IH; [discriminate|intros x Hx; apply Hp; now right]).
+    destruct (Z.max_spec y (zmaxl (z :: l'))) as [[_ ->]|[_ ->]]; [now right|now left].
+Qed.
+
+Lemma fold_max_spec r x : let m := fold_left Z.max r x in In m (x :: r) /\ (forall y, In y (x :: r) -> y <= m).
+Proof.
+  revert x; induction r as [|z r IH]; intros x; cbn [fold_left].
+  - split; [now left|]. intros y [->|[]]. lia.
+  - destruct (IH (Z.max x z)) as [Hin Hle]. split.
+    + destruct Hin as [E|Hin]; [|right; now right]. rewrite <- E.
+      destruct (Z.max_spec x z) as [[_ ->]|[_ ->]]; [right; now left|now left].
+    + intros y Hy. pose proof (Hle (Z.max x z) (or_introl eq_refl)) as H0.
+      destruct Hy as [E|[E|Hy]]; [rewrite <- E; lia|rewrite <- E; lia|]. apply Hle. now right.
+Qed.
+
+(* np.max characterised: the result is a member and an upper bound *)
+Lemma zmax_opt_iff l m : zmax_opt l = Some m <-> In m l /\ (forall y, In y l -> y <= m).
+Proof.
+  destruct l as [|x r]; cbn [zmax_opt].
+  - split; [discriminate|intros [[] _]].
+  - pose proof (fold_max_spec r x) as [Hin Hle]. cbn zeta in *. split.
+    + intros H; injection H as <-. split; assumption.
+    + intros [Hm Hb]. f_equal. specialize (Hle m Hm). specialize (Hb _ Hin). lia.
+Qed.
+
+Lemma zmax_opt_zmaxl l : l <> [] -> (forall x, In x l -> 0 <= x) -> zmax_opt l = Some (zmaxl l).
+Proof. intros Hn Hp. apply zmax_opt_iff. split; [now apply zmaxl_in|apply zmaxl_ge]. Qed.
+
+Section Offsets.
+Context {A V F : Type}.
+Notation probe := (probe A V F).
+Notation merged := (merged A V F).
+Notation tagged := (tagged A).
+
+(* generic offset: ids = p_clu or p_tmpl *)
+Definition goff (ids : probe -> list Z) (ps : list probe) (k : nat) : Z :=
+  zsum (map (fun p => n_ids (ids p)) (firstn k ps)).
+Lemma coff_goff ps k : coff_spec ps k = goff (@p_clu A V F) ps k. Proof. reflexivity. Qed.
+Lemma toff_goff ps k : toff_spec ps k = goff (@p_tmpl A V F) ps k. Proof. reflexivity. Qed.
+
+Lemma goff_0 ids ps : goff ids ps 0 = 0. Proof. reflexivity. Qed.
+Lemma goff_S ids p r j : goff ids (p :: r) (S j) = n_ids (ids p) + goff ids r j. Proof. reflexivity. Qed.
+Lemma n_ids_pos l : 1 <= n_ids l. Proof. unfold n_ids. pose proof (zmaxl_nonneg l). lia. Qed.
+
+Lemma goff_step ids ps k (p : probe) : nth_error ps k = Some p -> goff ids ps (S k) = goff ids ps k + n_ids (ids p).
+Proof.
+  revert k; induction ps as [|q r IH]; intros [|k] H; cbn [nth_error] in H; try discriminate.
+  - injection H as ->. rewrite goff_S, !goff_0. lia.
+  - rewrite !goff_S, (IH k H). lia.
+Qed.
+Lemma goff_mono ids ps j k : (j <= k)%nat -> goff ids ps j <= goff ids ps k.
+Proof.
+  revert j k; induction ps as [|q r IH]; intros j k H.
+  - unfold goff. rewrite !firstn_nil. lia.
+  - destruct j as [|j]; destruct k as [|k]; try lia; rewrite ?goff_S, ?goff_0.
+    + pose proof (IH 0%nat k (Nat.le_0_l _)). rewrite goff_0 in H0. pose proof (n_ids_pos (ids q)). lia.
+    + specialize (IH j k). lia.
+Qed.
+Lemma goff_all ids ps k : (length ps <= k)%nat -> goff ids ps k = goff ids ps (length ps).
+Proof. intros H. unfold goff. rewrite !firstn_all2; [reflexivity|lia|lia]. Qed.
+
+(* cluster_probes, declaratively *)
+Fixpoint cp_spec (i : Z) (ps : list probe) : list Z :=
+  match ps with [] => [] | p :: r => repeat i (Z.to_nat (n_ids (p_clu p))) ++ cp_spec (i + 1) r end.
+
+Lemma wf_probe_len (p : probe) : wf_probe p -> wf_len p.
+Proof. intros (H1 & H2 & H3 & _). repeat split; assumption. Qed.
+Lemma wf_probe_ne (p : probe) : wf_probe p -> p_clu p <> [] /\ p_tmpl p <> [].
+Proof.
+  intros (H1 & H2 & H3 & Hn & _). split; intros E; rewrite E in *; cbn [length] in *;
+    destruct (p_times p); [contradiction|discriminate|contradiction|discriminate].
+Qed.
+
+Lemma map_seq_S {Y} (f : nat -> Y) n : map f (seq 0 (S n)) = f 0%nat :: map (fun j => f (S j)) (seq 0 n).
+Proof. cbn [seq map]. f_equal. rewrite <- seq_shift, map_map. reflexivity. Qed.
+
+Lemma sc_loop_spec (ps : list probe) : Forall wf_probe ps -> forall i coff toff,
+  exists sh, sc_loop i coff toff ps = Some sh /\
+    map sh_coff sh = map (fun j => coff + coff_spec ps j) (seq 0 (length ps)) /\
+    map sh_toff sh = map (fun j => toff + toff_spec ps j) (seq 0 (length ps)) /\
+    (forall k, concat (map sh_sc sh) =
+               map (fun s => t_clu s + (coff + coff_spec ps (t_probe s - k))) (tagged_from k ps)) /\
+    (forall k, concat (map sh_st sh) =
+               map (fun s => t_tmpl s + (toff + toff_spec ps (t_probe s - k))) (tagged_from k ps)) /\
+    concat (map sh_cp sh) = cp_spec i ps.
+Proof.
+  induction 1 as [|p r Hp Hr IH]; intros i coff toff.
+  - exists []. cbn. repeat split; reflexivity.
+  - destruct (wf_probe_ne p Hp) as [Nc Nt]. pose proof Hp as (L1 & L2 & L3 & _ & Pc & Pt).
+    cbn [sc_loop]. rewrite (zmax_opt_zmaxl _ Nc Pc), (zmax_opt_zmaxl _ Nt Pt).
+    fold (n_ids (p_clu p)). fold (n_ids (p_tmpl p)).
+    replace (n_ids (p_clu p) <? 0) with false by (pose proof (n_ids_pos (p_clu p)); lia).
+    destruct (IH (i + 1) (coff + n_ids (p_clu p)) (toff + n_ids (p_tmpl p))) as (sh & -> & E1 & E2 & E3 & E4 & E5).
+    eexists. split; [reflexivity|]. cbn [map sh_coff sh_toff sh_sc sh_st sh_cp concat length].
+    rewrite !map_seq_S, E1, E2, E5. rewrite coff_goff, toff_goff, !goff_0.
+    split; [f_equal; [lia|]; apply map_ext; intros j; rewrite !coff_goff, goff_S; lia|].
+    split; [f_equal; [lia|]; apply map_ext; intros j; rewrite !toff_goff, goff_S; lia|].
+    split; [|split; [|reflexivity]].
+    + intros k. cbn [tagged_from]. rewrite map_app, (E3 (S k)). f_equal.
+      * destruct (tag_spikes_proj k 0 _ _ _ _ L1 L2 L3) as (_ & _ & _ & G). unfold tag_probe.
+        rewrite <- G at 1. rewrite map_map. apply map_ext_in. intros s Hs.
+        destruct (tag_spikes_tags _ _ _ _ _ _ _ Hs) as [-> _]. rewrite Nat.sub_diag, coff_goff, goff_0. lia.
+      * apply map_ext_in. intros s Hs. pose proof (tagged_from_probe _ _ _ Hs).
+        replace (t_probe s - k)%nat with (S (t_probe s - S k)) by lia. rewrite !coff_goff, goff_S. lia.
+    + intros k. cbn [tagged_from]. rewrite map_app, (E4 (S k)). f_equal.
+      * destruct (tag_spikes_proj k 0 _ _ _ _ L1 L2 L3) as (_ & _ & G & _). unfold tag_probe.
+        rewrite <- G at 1. rewrite map_map. apply map_ext_in. intros s Hs.
+        destruct (tag_spikes_tags _ _ _ _ _ _ _ Hs) as [-> _]. rewrite Nat.sub_diag, toff_goff, goff_0. lia.
+      * apply map_ext_in. intros s Hs. pose proof (tagged_from_probe _ _ _ Hs).
+        replace (t_probe s - k)%nat with (S (t_probe s - S k)) by lia. rewrite !toff_goff, goff_S. lia.
+Qed.
+End Offsets.
+
+(* ---------------------------------------------------------------------------------------------
+   E. the master statement: merge succeeds on well-formed input and its arrays are the fields of the
+      stable time-sort of the tagged spikes, ids shifted by the declarative offsets
+   --------------------------------------------------------------------------------------------- *)
+Section Master.
+Context {A V F : Type}.
+Notation probe := (probe A V F).
+Notation merged := (merged A V F).
+Notation tagged := (tagged A).
+
+Lemma tagged_from_in k0 (ps : list probe) s : Forall wf_len ps -> In s (tagged_from k0 ps) ->
+  exists p, nth_error ps (t_probe s - k0) = Some p /\ In (t_clu s) (p_clu p) /\ In (t_tmpl s) (p_tmpl p) /\
+            In (t_time s) (p_times p).
+Proof.
+  intros H; revert k0; induction H as [|p r (L1 & L2 & L3) Hr IH]; intros k0; cbn [tagged_from]; [contradiction|].
+  rewrite in_app_iff. intros [Hs|Hs].
+  - destruct (tag_spikes_tags _ _ _ _ _ _ _ Hs) as [-> _]. rewrite Nat.sub_diag. exists p. split; [reflexivity|].
+    destruct (tag_spikes_proj k0 0 _ _ _ _ L1 L2 L3) as (G1 & _ & G3 & G4).
+    rewrite <- G4 at 1. rewrite <- G3 at 2. rewrite <- G1 at 3. unfold tag_probe in Hs. repeat split; now apply in_map.
+  - pose proof (tagged_from_probe _ _ _ Hs). destruct (IH _ Hs) as (q & Hq & Hc).
+    exists q. replace (t_probe s - k0)%nat with (S (t_probe s - S k0)) by lia. cbn [nth_error]. split; assumption.
+Qed.
+
+Lemma tagged_from_ex k0 (ps : list probe) k p c : Forall wf_len ps -> nth_error ps k = Some p -> In c (p_clu p) ->
+  exists s, In s (tagged_from k0 ps) /\ t_probe s = (k0 + k)%nat /\ t_clu s = c.
+Proof.
+  intros H; revert k0 k; induction H as [|q r (L1 & L2 & L3) Hr IH]; intros k0 [|k] Hk Hc; cbn [nth_error] in Hk; try discriminate.
+  - injection Hk as ->. destruct (tag_spikes_proj k0 0 _ _ _ _ L1 L2 L3) as (_ & _ & _ & G4).
+    rewrite <- G4 in Hc. apply in_map_iff in Hc as (s & E & Hs). exists s. cbn [tagged_from]. split; [apply in_app_iff; now left|].
+    destruct (tag_spikes_tags _ _ _ _ _ _ _ Hs) as [-> _]. split; [lia|exact E].
+  - destruct (IH (S k0) k Hk Hc) as (s & Hs & E1 & E2). exists s. cbn [tagged_from].
+    split; [apply in_app_iff; now right|]. split; [lia|exact E2].
+Qed.
+
+Lemma cp_spec_length i (ps : list probe) : Z.of_nat (length (cp_spec i ps)) = coff_spec ps (length ps).
+Proof.
+  revert i; induction ps as [|p r IH]; intros i; [reflexivity|].
+  cbn [cp_spec length]. rewrite app_length, repeat_length, Nat2Z.inj_add, IH, !coff_goff, goff_S.
+  pose proof (n_ids_pos (p_clu p)). lia.
+Qed.
+
+Lemma reorder_field {Y} (g : tagged -> Y) (R : list tagged) :
+  map snd (isort (combine (map (@t_time A) R) (map g R))) = map g (sorted_tagged R).
+Proof.
+  rewrite combine_map_r, combine_map_self, isort_map, map_map. unfold sorted_tagged, keyed.
+  rewrite map_map. reflexivity.
+Qed.
+
+Definition wf_all (ps : list probe) : Forall wf_probe ps -> Forall wf_len ps.
+Proof. intros H. eapply Forall_impl; [|exact H]. apply wf_probe_len. Qed.
+
+Theorem merge_spec (ps : list probe) : wf ps ->
+  exists m, merge ps = Some m /\ Payload ps m (sorted_tagged (tagged_concat ps)) /\
+    m_coffs m = map (coff_spec ps) (seq 0 (length ps)) /\ m_toffs m = map (toff_spec ps) (seq 0 (length ps)) /\
+    m_cprobes m = cp_spec 0 ps /\
+    m_meta m = map (fun f => meta_file f ps (map (coff_spec ps) (seq 0 (length ps)))) (seq 0 n_meta_files).
+Proof.
+  intros [Hne Hwf]. destruct ps as [|p0 r0]; [contradiction|]. clear Hne. remember (p0 :: r0) as ps eqn:Eps.
+  assert (Hm : forall (a b : option merged), match ps with [] => a | _ :: _ => b end = b) by (intros; rewrite Eps; reflexivity).
+  pose proof (wf_all ps Hwf) as Hlen.
+  destruct (tagged_from_proj 0 ps Hlen) as (T1 & T2 & T3 & T4). fold (tagged_concat ps) in *.
+  set (R := tagged_concat ps) in *.
+  destruct (sc_loop_spec ps Hwf 0 0 0) as (sh & Hsh & S1 & S2 & S3 & S4 & S5).
+  specialize (S3 0%nat). specialize (S4 0%nat). fold (tagged_concat ps) in S3, S4. fold R in S3, S4.
+  unfold merge. rewrite Hm. clear Hm.
+  unfold spike_order, concat_times. rewrite <- T1.
+  rewrite (take_argsort (map (@t_time A) R) (map (@t_time A) R) eq_refl), reorder_field.
+  rewrite !load_spike_arrays_spec by (rewrite <- ?T2, <- ?T3, ?S3, ?S4, !map_length; reflexivity).
+  rewrite Hsh. rewrite !load_spike_arrays_spec by (rewrite ?S3, ?S4, !map_length; reflexivity).
+  rewrite <- T2, S3, S4, !reorder_field.
+  set (M := sorted_tagged R).
+  set (clu := map (fun s : tagged => t_clu s + (0 + coff_spec ps (t_probe s - 0))) M).
+  assert (Hmax : zmax_opt clu = Some (coff_spec ps (length ps) - 1)).
+  { apply zmax_opt_iff. split.
+    - (* the largest id of the last probe *)
+      assert (Hlast : exists q, nth_error ps (length ps - 1) = Some q).
+      { rewrite Eps. cbn [length]. destruct (nth_error (p0 :: r0) (S (length r0) - 1)) eqn:E; [eauto|].
+        apply nth_error_None in E. cbn [length] in E. lia. }
+      destruct Hlast as (q & Hq). assert (Wq : wf_probe q).
+      { rewrite Forall_forall in Hwf. apply Hwf. eapply nth_error_In; exact Hq. }
+      destruct (wf_probe_ne q Wq) as [Nc _]. pose proof Wq as (_ & _ & _ & _ & Pc & _).
+      destruct (tagged_from_ex 0 ps _ q _ Hlen Hq (zmaxl_in _ Nc Pc)) as (s & Hs & E1 & E2).
+      unfold clu. apply in_map_iff. exists s. split.
+      + rewrite E1, E2, Nat.sub_0_r. cbn [Nat.add].
+        assert (Hn : length ps = S (length ps - 1)) by (rewrite Eps; cbn [length]; lia).
+        rewrite Hn at 2. rewrite !coff_goff, (goff_step _ _ _ _ Hq). unfold n_ids. lia.
+      + apply (Permutation_in _ (Permutation_sym (sorted_tagged_perm R))). exact Hs.
+    - intros y Hy. unfold clu in Hy. apply in_map_iff in Hy as (s & <- & Hs).
+      apply (Permutation_in _ (sorted_tagged_perm R)) in Hs.
+      destruct (tagged_from_in 0 ps s Hlen Hs) as (q & Hq & Hc & _). rewrite Nat.sub_0_r in *.
+      pose proof (zmaxl_ge _ _ Hc). pose proof (goff_step (@p_clu A V F) _ _ _ Hq) as G.
+      assert (t_probe s < length ps)%nat by (apply nth_error_Some; congruence).
+      pose proof (goff_mono (@p_clu A V F) ps (S (t_probe s)) (length ps) ltac:(lia)).
+      rewrite !coff_goff. unfold n_ids in G. lia. }
+  rewrite Hmax, S5. pose proof (cp_spec_length 0 ps) as HL.
+  replace (coff_spec ps (length ps) - 1 + 1 =? Z.of_nat (length (cp_spec 0 ps))) with true by lia.
+  eexists. split; [reflexivity|]. cbn [m_times m_amps m_tmpl m_clu m_coffs m_toffs m_cprobes m_meta].
+  assert (C1 : map sh_coff sh = map (coff_spec ps) (seq 0 (length ps))) by (rewrite S1; apply map_ext; intros; lia).
+  assert (C2 : map sh_toff sh = map (toff_spec ps) (seq 0 (length ps))) by (rewrite S2; apply map_ext; intros; lia).
+  rewrite C1, C2. split; [|repeat split; reflexivity].
+  unfold Payload. cbn [m_times m_amps m_tmpl m_clu]. repeat split; try reflexivity.
+  - unfold clu. apply map_ext. intros s. rewrite Nat.sub_0_r. lia.
+  - apply map_ext. intros s. rewrite Nat.sub_0_r. lia.
+Qed.
+End Master.
+
+(* ---------------------------------------------------------------------------------------------
+   F. consequences: order by positions, disjoint id intervals, cluster_probes
+   --------------------------------------------------------------------------------------------- *)
+Lemma SSorted_nth {X} (R : X -> X -> Prop) l : StronglySorted R l ->
+  forall j1 j2 x1 x2, (j1 < j2)%nat -> nth_error l j1 = Some x1 -> nth_error l j2 = Some x2 -> R x1 x2.
+Proof.
+  induction 1 as [|x l Hs IH Hx]; intros j1 j2 x1 x2 Hlt H1 H2; [destruct j1; discriminate|].
+  destruct j2 as [|j2]; [lia|]. cbn [nth_error] in H2. destruct j1 as [|j1]; cbn [nth_error] in H1.
+  - injection H1 as <-. rewrite Forall_forall in Hx. apply Hx. eapply nth_error_In; exact H2.
+  - apply (IH j1 j2); [lia|assumption|assumption].
+Qed.
+
+Section Conseq.
+Context {A V F : Type}.
+Notation probe := (probe A V F).
+Notation merged := (merged A V F).
+Notation tagged := (tagged A).
+
+Lemma lt3_irrefl (s : tagged) : ~ lt3 s s.
+Proof. unfold lt3, taglt. lia. Qed.
+Lemma lt3_asym (a b : tagged) : lt3 a b -> ~ lt3 b a.
+Proof. unfold lt3, taglt. lia. Qed.
+
+(* positions in a (time, probe, index)-sorted list are ordered exactly as lt3 orders the spikes *)
+Lemma lt3_positions (M : list tagged) : StronglySorted (@lt3 A) M ->
+  forall j1 j2 s1 s2, nth_error M j1 = Some s1 -> nth_error M j2 = Some s2 -> ((j1 < j2)%nat <-> lt3 s1 s2).
+Proof.
+  intros HS j1 j2 s1 s2 H1 H2. split.
+  - intros Hlt. exact (SSorted_nth _ _ HS _ _ _ _ Hlt H1 H2).
+  - intros L. destruct (lt_eq_lt_dec j1 j2) as [[Hlt|Heq]|Hgt]; [exact Hlt| |].
+    + subst j2. rewrite H1 in H2. injection H2 as <-. now apply lt3_irrefl in L.
+    + pose proof (SSorted_nth _ _ HS _ _ _ _ Hgt H2 H1) as L'. now apply lt3_asym in L.
+Qed.
+
+Lemma lt3_times_sorted (M : list tagged) : StronglySorted (@lt3 A) M -> StronglySorted Z.le (map (@t_time A) M).
+Proof.
+  induction 1 as [|x l Hs IH Hx]; cbn [map]; constructor; [exact IH|].
+  rewrite Forall_forall in *. intros t Ht. apply in_map_iff in Ht as (y & <- & Hy).
+  destruct (Hx y Hy) as [L|[E _]]; lia.
+Qed.
+
+Lemma taglt_irrefl (s : tagged) : ~ taglt s s.
+Proof. unfold taglt. lia. Qed.
+Lemma SSorted_NoDup_tags (R : list tagged) : StronglySorted (@taglt A) R ->
+  NoDup (map (fun s => (t_probe s, t_idx s)) R).
+Proof.
+  induction 1 as [|x l Hs IH Hx]; cbn [map]; constructor; [|exact IH].
+  intros Hin. apply in_map_iff in Hin as (y & E & Hy). rewrite Forall_forall in Hx. specialize (Hx y Hy).
+  injection E as E1 E2. unfold taglt in Hx. lia.
+Qed.
+
+(* ids of an earlier probe, shifted, lie strictly below the shifted ids of a later probe *)
+Lemma goff_disjoint (ids : probe -> list Z) (ps : list probe) j k pj pk :
+  (j < k)%nat -> nth_error ps j = Some pj -> nth_error ps k = Some pk ->
+  (forall c, In c (ids pk) -> 0 <= c) ->
+  goff ids ps j + zmaxl (ids pj) < goff ids ps k /\
+  (forall c, In c (ids pj) -> goff ids ps j + c <= goff ids ps j + zmaxl (ids pj)) /\
+  (forall c, In c (ids pk) -> goff ids ps k <= goff ids ps k + c).
+Proof.
+  intros Hlt Hj Hk Hp. pose proof (goff_step ids ps j pj Hj) as G. pose proof (goff_mono ids ps (S j) k ltac:(lia)).
+  unfold n_ids in G. split; [lia|]. split; intros c Hc; [pose proof (zmaxl_ge _ _ Hc); lia|specialize (Hp c Hc); lia].
+Qed.
+
+Lemma cp_spec_nth (ps : list probe) : forall i k p c, nth_error ps k = Some p ->
+  coff_spec ps k <= c < coff_spec ps k + n_ids (p_clu p) ->
+  nth_error (cp_spec i ps) (Z.to_nat c) = Some (i + Z.of_nat k).
+Proof.
+  induction ps as [|q r IH]; intros i k p c Hk Hc; [destruct k; discriminate|].
+  pose proof (n_ids_pos (p_clu q)) as Hq. cbn [cp_spec]. destruct k as [|k]; cbn [nth_error] in Hk.
+  - injection Hk as ->. rewrite coff_goff, goff_0 in Hc. rewrite nth_error_app1 by (rewrite repeat_length; lia).
+    rewrite (nth_error_nth' _ i) by (rewrite repeat_length; lia). rewrite nth_repeat. f_equal. lia.
+  - rewrite coff_goff, goff_S, <- coff_goff in Hc.
+    assert (0 <= coff_spec r k).
+    { rewrite coff_goff. pose proof (goff_mono (@p_clu A V F) r 0 k (Nat.le_0_l _)) as G. rewrite goff_0 in G. exact G. }
+    rewrite nth_error_app2 by (rewrite repeat_length; lia).
+    rewrite repeat_length. replace (Z.to_nat c - Z.to_nat (n_ids (p_clu q)))%nat with (Z.to_nat (c - n_ids (p_clu q))) by lia.
+    rewrite (IH (i + 1) k p (c - n_ids (p_clu q)) Hk) by lia. f_equal. lia.
+Qed.
+
+Lemma cp_spec_inv (ps : list probe) : forall i c k', nth_error (cp_spec i ps) c = Some k' ->
+  exists k p, k' = i + Z.of_nat k /\ nth_error ps k = Some p /\
+              coff_spec ps k <= Z.of_nat c < coff_spec ps k + n_ids (p_clu p).
+Proof.
+  induction ps as [|q r IH]; intros i c k' H; [destruct c; discriminate|].
+  pose proof (n_ids_pos (p_clu q)) as Hq. cbn [cp_spec] in H.
+  destruct (lt_dec c (Z.to_nat (n_ids (p_clu q)))) as [L|L].
+  - rewrite nth_error_app1 in H by (rewrite repeat_length; lia).
+    apply nth_error_In, repeat_spec in H. exists 0%nat, q. rewrite coff_goff, goff_0. cbn [nth_error].
+    split; [lia|]. split; [reflexivity|lia].
+  - rewrite nth_error_app2 in H by (rewrite repeat_length; lia). rewrite repeat_length in H.
+    destruct (IH _ _ _ H) as (k & p & E & Hk & Hc). exists (S k), p. cbn [nth_error].
+    rewrite coff_goff, goff_S, <- coff_goff. split; [lia|]. split; [exact Hk|lia].
+Qed.
+End Conseq.
+
+(* ---------------------------------------------------------------------------------------------
+   G. the statements of Props.v
+   --------------------------------------------------------------------------------------------- *)
+Section Final.
+Context {A V F : Type}.
+Notation probe := (probe A V F).
+Notation merged := (merged A V F).
+Notation tagged := (tagged A).
+
+Definition tagpair (s : tagged) : nat * nat := (t_probe s, t_idx s).
+
+Theorem thm_permutation (ps : list probe) : wf ps ->
+  exists m M, merge ps = Some m /\ Payload ps m M /\ Permutation M (tagged_concat ps) /\
+              NoDup (map tagpair (tagged_concat ps)) /\ NoDup (map tagpair M).
+Proof.
+  intros H. destruct (merge_spec ps H) as (m & Hm & HP & _). exists m, (sorted_tagged (tagged_concat ps)).
+  pose proof (sorted_tagged_perm (tagged_concat ps)) as P.
+  pose proof (SSorted_NoDup_tags _ (tagged_from_sorted 0 ps)) as N. fold (tagged_concat ps) in N.
+  split; [exact Hm|]. split; [exact HP|]. split; [exact P|]. split; [exact N|].
+  eapply Permutation_NoDup; [|exact N]. apply Permutation_map. now apply Permutation_sym.
+Qed.
+
+Theorem thm_sorted_stable (ps : list probe) : wf ps ->
+  exists m M, merge ps = Some m /\ Payload ps m M /\ Permutation M (tagged_concat ps) /\
+              StronglySorted (@lt3 A) M /\ StronglySorted Z.le (m_times m).
+Proof.
+  intros H. destruct (merge_spec ps H) as (m & Hm & HP & _). exists m, (sorted_tagged (tagged_concat ps)).
+  pose proof (sorted_tagged_lt3 _ (tagged_from_sorted 0 ps)) as S. fold (tagged_concat ps) in S.
+  split; [exact Hm|]. split; [exact HP|]. split; [apply sorted_tagged_perm|]. split; [exact S|].
+  destruct HP as (-> & _). now apply lt3_times_sorted.
+Qed.
+
+Theorem thm_same_probe_order (M : list tagged) : StronglySorted (@lt3 A) M ->
+  forall j1 j2 s1 s2, nth_error M j1 = Some s1 -> nth_error M j2 = Some s2 ->
+  t_probe s1 = t_probe s2 -> (t_idx s1 < t_idx s2)%nat -> t_time s1 <= t_time s2 -> (j1 < j2)%nat.
+Proof.
+  intros HS j1 j2 s1 s2 H1 H2 Ep Ei Et. apply (lt3_positions M HS j1 j2 s1 s2 H1 H2).
+  unfold lt3, taglt. lia.
+Qed.
+
+Theorem thm_ties_by_probe (M : list tagged) : StronglySorted (@lt3 A) M ->
+  forall j1 j2 s1 s2, nth_error M j1 = Some s1 -> nth_error M j2 = Some s2 ->
+  t_time s1 = t_time s2 -> (t_probe s1 < t_probe s2)%nat -> (j1 < j2)%nat.
+Proof.
+  intros HS j1 j2 s1 s2 H1 H2 Et Ep. apply (lt3_positions M HS j1 j2 s1 s2 H1 H2).
+  unfold lt3, taglt. lia.
+Qed.
+
+Theorem thm_payload (ps : list probe) : wf ps ->
+  exists m M, merge ps = Some m /\ Permutation M (tagged_concat ps) /\
+    m_times m = map (@t_time A) M /\ m_amps m = map (@t_amp A) M /\
+    m_clu m = map (fun s => t_clu s + coff_spec ps (t_probe s)) M /\
+    m_tmpl m = map (fun s => t_tmpl s + toff_spec ps (t_probe s)) M /\
+    m_coffs m = map (coff_spec ps) (seq 0 (length ps)) /\ m_toffs m = map (toff_spec ps) (seq 0 (length ps)).
+Proof.
+  intros H. destruct (merge_spec ps H) as (m & Hm & (P1 & P2 & P3 & P4) & C1 & C2 & _).
+  exists m, (sorted_tagged (tagged_concat ps)). repeat split; try assumption. apply sorted_tagged_perm.
+Qed.
+
+Theorem thm_disjoint (ps : list probe) : Forall wf_probe ps ->
+  forall j k pj pk, (j < k)%nat -> nth_error ps j = Some pj -> nth_error ps k = Some pk ->
+  (coff_spec ps j + zmaxl (p_clu pj) < coff_spec ps k /\
+   (forall c, In c (p_clu pj) -> coff_spec ps j <= c + coff_spec ps j <= coff_spec ps j + zmaxl (p_clu pj)) /\
+   (forall c, In c (p_clu pk) -> coff_spec ps k <= c + coff_spec ps k)) /\
+  (toff_spec ps j + zmaxl (p_tmpl pj) < toff_spec ps k /\
+   (forall c, In c (p_tmpl pj) -> toff_spec ps j <= c + toff_spec ps j <= toff_spec ps j + zmaxl (p_tmpl pj)) /\
+   (forall c, In c (p_tmpl pk) -> toff_spec ps k <= c + toff_spec ps k)).
+Proof.
+  intros Hwf j k pj pk Hlt Hj Hk. rewrite Forall_forall in Hwf.
+  pose proof (Hwf _ (nth_error_In _ _ Hj)) as (_ & _ & _ & _ & Pcj & Ptj).
+  pose proof (Hwf _ (nth_error_In _ _ Hk)) as (_ & _ & _ & _ & Pck & Ptk).
+  destruct (goff_disjoint (@p_clu A V F) ps j k pj pk Hlt Hj Hk Pck) as (D1 & D2 & D3).
+  destruct (goff_disjoint (@p_tmpl A V F) ps j k pj pk Hlt Hj Hk Ptk) as (E1 & E2 & E3).
+  rewrite !coff_goff, !toff_goff. split; (split; [assumption|]; split; intros c Hc).
+  - specialize (Pcj c Hc). specialize (D2 c Hc). lia.
+  - specialize (D3 c Hc). lia.
+  - specialize (Ptj c Hc). specialize (E2 c Hc). lia.
+  - specialize (E3 c Hc). lia.
+Qed.
+
+(* merged ids never collide across probes: equal merged id => same probe and same original id *)
+Theorem thm_no_collision (ps : list probe) : Forall wf_probe ps -> forall s1 s2,
+  In s1 (tagged_concat ps) -> In s2 (tagged_concat ps) ->
+  (t_clu s1 + coff_spec ps (t_probe s1) = t_clu s2 + coff_spec ps (t_probe s2) ->
+     t_probe s1 = t_probe s2 /\ t_clu s1 = t_clu s2) /\
+  (t_tmpl s1 + toff_spec ps (t_probe s1) = t_tmpl s2 + toff_spec ps (t_probe s2) ->
+     t_probe s1 = t_probe s2 /\ t_tmpl s1 = t_tmpl s2).
+Proof.
+  intros Hwf s1 s2 H1 H2. pose proof (wf_all ps Hwf) as Hlen.
+  destruct (tagged_from_in 0 ps s1 Hlen H1) as (p1 & N1 & C1 & T1 & _).
+  destruct (tagged_from_in 0 ps s2 Hlen H2) as (p2 & N2 & C2 & T2 & _).
+  rewrite Nat.sub_0_r in *.
+  destruct (lt_eq_lt_dec (t_probe s1) (t_probe s2)) as [[L|E]|L].
+  - destruct (thm_disjoint ps Hwf _ _ _ _ L N1 N2) as ((D1 & D2 & D3) & (E1 & E2 & E3)).
+    specialize (D2 _ C1). specialize (D3 _ C2). specialize (E2 _ T1). specialize (E3 _ T2). split; intros; lia.
+  - rewrite E. split; intros; split; try reflexivity; lia.
+  - destruct (thm_disjoint ps Hwf _ _ _ _ L N2 N1) as ((D1 & D2 & D3) & (E1 & E2 & E3)).
+    specialize (D2 _ C2). specialize (D3 _ C1). specialize (E2 _ T2). specialize (E3 _ T1). split; intros; lia.
+Qed.
+
+Theorem thm_cluster_probes (ps : list probe) : wf ps ->
+  exists m, merge ps = Some m /\ Z.of_nat (length (m_cprobes m)) = coff_spec ps (length ps) /\
+    (forall k p c, nth_error ps k = Some p -> 0 <= c <= zmaxl (p_clu p) ->
+                   nth_error (m_cprobes m) (Z.to_nat (c + coff_spec ps k)) = Some (Z.of_nat k)) /\
+    (forall c k', nth_error (m_cprobes m) c = Some k' ->
+       exists k p, k' = Z.of_nat k /\ nth_error ps k = Some p /\ 0 <= Z.of_nat c - coff_spec ps k <= zmaxl (p_clu p)).
+Proof.
+  intros H. destruct (merge_spec ps H) as (m & Hm & _ & _ & _ & C & _). exists m. rewrite C.
+  split; [exact Hm|]. split; [apply cp_spec_length|]. split.
+  - intros k p c Hk Hc. rewrite (cp_spec_nth ps 0 k p (c + coff_spec ps k) Hk); [f_equal; lia|unfold n_ids; lia].
+  - intros c k' Hc. destruct (cp_spec_inv ps 0 c k' Hc) as (k & p & E & Hk & Hr). exists k, p.
+    split; [lia|]. split; [exact Hk|unfold n_ids in Hr; lia].
+Qed.
+End Final.
